@@ -76,58 +76,4 @@ theorem declare_shape (env : Env) (hne : env ≠ []) (m : String) (info : VarInf
   | nil => exact absurd rfl hne
   | cons s rest => exact ⟨(m, info) :: s, rfl⟩
 
-/-- the R603 subtype instances `accept_<Statement>Node` leaves related to the statement's ACT_SMT -/
-def stmtSubtypes : Stmt → List String
-  | .assign _ _ => ["ACT_AI"]
-  | .ret _ => ["ACT_RET"]
-  | .brk => ["ACT_BRK"]
-  | .cont => ["ACT_CON"]
-  | .ctl => ["ACT_CTL"]
-  | .create _ _ => ["ACT_CR"]
-  | .createNV _ => ["ACT_CNV"]
-  | .delete _ => ["ACT_DEL"]
-  | .relate _ _ _ _ => ["ACT_REL"]
-  | .relateU _ _ _ _ _ => ["ACT_RU"]
-  | .unrelate _ _ _ _ => ["ACT_UNR"]
-  | .unrelateU _ _ _ _ _ => ["ACT_URU"]
-  | .selFrom _ _ _ => ["ACT_FIO"]
-  | .selFromW _ _ _ _ => ["ACT_FIW"]
-  | .selRel _ _ _ _ => ["ACT_SEL"]
-  | .selRelW _ _ _ _ _ => ["ACT_SEL"]
-  | .forEach _ _ _ => ["ACT_FOR"]
-  | .while_ _ _ => ["ACT_WHL"]
-  | .if_ _ _ _ _ => ["ACT_IF"]
-  | .invoke (.call .func _ _ _) => ["ACT_FNC"]
-  | .invoke (.call .bridge _ _ _) => ["ACT_BRG"]
-  | .invoke (.call .classop _ _ _) => ["ACT_TFM"]
-  | .invoke (.icall _ _ _) => ["ACT_TFM"]
-  | .invoke _ => []          -- `accept_InvocationStatementNode` of anything else relates no subtype
-  | .genEvt _ _ _ _ => ["E_ESS"]
-  | .createEvt _ _ _ _ _ => ["E_ESS"]
-  | .genPre _ => ["E_GPR"]
-
-/-- R801 subtype instances created for the value of an expression, and those deleted again
-    (`migrate_instance` / `migrate_instance_set` replace the V_TVL of a first-assigned instance variable) -/
-def valCreated (c : TCtx) (env : Env) (migrates : Bool) (e : Expr) : List String :=
-  if migrates then ["V_TVL", kindOf c env e] else [kindOf c env e]
-
-def valDeleted (migrates : Bool) : List String := if migrates then ["V_TVL"] else []
-
-def valSubtypes (c : TCtx) (env : Env) (migrates : Bool) (e : Expr) : List String :=
-  (valDeleted migrates).foldl (fun acc d => acc.erase d) (valCreated c env migrates e)
-
-theorem stmtSubtypes_one (ctx : Ctx) (s : Stmt) (h : wfStmt ctx s = true) : (stmtSubtypes s).length = 1 := by
-  cases s with
-  | invoke e =>
-    have hw : isInvocation e = true ∧ wfExpr ctx e = true := by simpa [wfStmt] using h
-    cases e with
-    | call k a b ps => cases k <;> simp [isInvocation] at hw <;> simp [stmtSubtypes]
-    | icall hh n ps => simp [stmtSubtypes]
-    | _ => simp [isInvocation] at hw
-  | _ => simp [stmtSubtypes]
-
-theorem valSubtypes_one (c : TCtx) (env : Env) (migrates : Bool) (e : Expr) :
-    (valSubtypes c env migrates e).length = 1 := by
-  cases migrates <;> simp [valSubtypes, valCreated, valDeleted]
-
 end Pyx.Prebuild
